@@ -41,8 +41,9 @@ def run(pid, tier, tmp, replay):
     if not mc['ok']:
         p = vlib.save_replay(pid, 'model_counterexample.txt', mc['out'].splitlines()[-120:])
         violations.append({'replay': p, 'why': 'stage S: a law of the decision model fails: %s' % mc['violated']})
-    det_replay = bool(replay) and open(replay).readline().startswith('{"e":"SReset"')
-    if replay and replay.endswith('.ndjson') and not det_replay:
+    rank_replay = bool(replay) and '"RankCase"' in open(replay).read(4000)
+    det_replay = bool(replay) and not rank_replay and open(replay).readline().startswith('{"e":"SReset"')
+    if replay and replay.endswith('.ndjson') and not det_replay and not rank_replay:
         cases = replay
     res_file = os.path.join(tmp, 'res.json')
     rc, errlog = vlib.run_driver('plain', 'config_replay', [cases, res_file], tmp, timeout=900)
@@ -80,6 +81,23 @@ def run(pid, tier, tmp, replay):
         seg = rej.pop('segment')
         p = vlib.save_replay(pid, 'rejected_detector_%d.ndjson' % i, seg)
         violations.append({'replay': p, 'why': 'stage B (configured detector): event %d of the execution: %s' % (rej['line_in_execution'], rej['first_unmatched'][:300])})
+    # percentages of a system total (kill_by_swap_usage threshold N% of SwapTotal) are evaluated when the plugin is
+    # loaded: every load in one process must use the meminfo of ITS load (rank_driver rewrites one location per
+    # scenario) - validated through the first-victim rule of Ranking_Trace
+    vlib.build('plain', ['rank_driver'])
+    rtrace = os.path.join(tmp, 'rank.ndjson')
+    rargs = [rtrace, vlib.seed(), 270 if tier == 'quick' else 2700]
+    if rank_replay:
+        first = json.loads(open(replay).readline())
+        rargs = [rtrace, first['seed'], 1, first['scn']]
+    rrc, rerr = vlib.run_driver('plain', 'rank_driver', rargs, tmp, timeout=900)
+    if rrc != 0:
+        raise vlib.Infra('rank_driver exited with %s' % rrc)
+    rval = vlib.validate_trace('Ranking_Trace.tla', 'Ranking_Trace.cfg', rtrace, tmp)
+    for i, rej in enumerate(rval['rejections']):
+        seg = rej.pop('segment')
+        p = vlib.save_replay(pid, 'rejected_threshold_%d.ndjson' % i, seg)
+        violations.append({'replay': p, 'why': 'stage B (configured threshold): event %d of the execution: %s' % (rej['line_in_execution'], rej['first_unmatched'][:300])})
     # the real binary on malformed / invalid documents: exit status must be 0 or 1, never a signal
     exe = os.path.join(vlib.BUILD, 'plain', 'oomd')
     nbin, badbin = 0, []
@@ -98,7 +116,7 @@ def run(pid, tier, tmp, replay):
     cov = {'states': mc['distinct'], 'transitions': mc['states'],
            'traces_validated_against_impl': res['agree'], 'samples': sample,
            'cases': res['cases'], 'cases_in_catalogued_leniency_classes': sum(l['count'] for l in res['lenient']),
-           'binary_documents': nbin, 'configured_detector_executions': dval['executions'], 'mc_configs': ['MC_C12_%s.cfg' % tier], 'exhaustive': True,
+           'binary_documents': nbin, 'configured_detector_executions': dval['executions'], 'configured_threshold_executions': rval['executions'], 'mc_configs': ['MC_C12_%s.cfg' % tier], 'exhaustive': True,
            'mc_exhaustive_within_constants': bool(mc.get('completed'))}
     vlib.write_evidence(pid, tier, 'model_checking', cov, time.time() - t0, len(violations), ASSUME)
     vlib.finish(pid, violations, known)
